@@ -60,6 +60,31 @@ def natural_matrix(ctx):
                      field=0.2, current=0.5, steps=4, screening=True, screening_tol=1e-2))
     runs.append(dict(label="bar/seeded psi: 0 -> 1/adaptive-retries", dev="bar", field=0.6, current=6.0, adaptive=ad, seed_time=0.2,
                      ramp=None, seed_chain=[[0.0, 0.0]], terminal_psi=[1.0, 0.0]))
+    # equivalent API forms of configuring the terminal value: keyword (all runs above), attribute assignment after
+    # construction (None -> value, value -> None, value -> other value), dataclasses.replace, copy / deepcopy / pickle
+    # of an options object, options read back from a Solution file
+    af = dict(dev="bar", field=0.5, current=2.0, steps=6, ramp=None)
+    for form, psi0, v in (("assign", "none", [1.0, 0.0]), ("assign", [1.0, 0.0], "none"), ("assign", [0.0, 0.0], "none"),
+                          ("assign", "none", [0.0, 0.0]), ("assign", [0.5, 0.0], [-0.3, 0.0]),
+                          ("replace", [0.0, 0.0], "none"), ("replace", "none", [0.6, 0.2]),
+                          ("copy", None, "none"), ("deepcopy", None, [1.0, 0.0]), ("pickle", None, "none"),
+                          ("file", None, "none"), ("file", None, [0.5, 0.2])):
+        r = dict(af, label=f"bar/options by {form}: {psi0 if psi0 is not None else ''}{' -> ' if psi0 is not None else ''}{v}",
+                 form=form, terminal_psi=v)
+        if psi0 is not None:
+            r["psi0"] = psi0
+        runs.append(r)
+    if not ctx.quick:
+        for dev in ("barhole", "tee"):
+            for form, psi0, v in (("assign", [0.3, 0.0], "none"), ("assign", "none", [0.3, 0.4]), ("replace", [1.0, 0.0], "none"),
+                                  ("deepcopy", None, "none"), ("pickle", None, [0.0, 0.0]), ("file", None, "none")):
+                r = dict(label=f"{dev}/options by {form}: {psi0} -> {v}", dev=dev, field=0.6, current=(3.0 if dev == "barhole" else 0.0),
+                         steps=12, ramp=None, form=form, terminal_psi=v)
+                if psi0 is not None:
+                    r["psi0"] = psi0
+                runs.append(r)
+            runs.append(dict(label=f"{dev}/options by assign: 0 -> None/screening", dev=dev, field=0.2, current=0.0, steps=4, ramp=None,
+                             form="assign", psi0=[0.0, 0.0], terminal_psi="none", screening=True, screening_tol=1e-2))
     if not ctx.quick:
         for dev in ("barhole", "tee"):
             for label, chain, v in (("0 -> 0.6+0.2j", [[0.0, 0.0]], [0.6, 0.2]), ("0.6+0.2j -> -0.3 -> 1", [[0.6, 0.2], [-0.3, 0.0]], [1.0, 0.0]),
@@ -128,6 +153,10 @@ def solver_level(ctx):
             not any(t["seed"] == "other" and t["v"] == "zero" for t in nat_traces) or \
             not any(t["info"]["seeded"] and t["v"] == "none" for t in nat_traces):
         raise core.MachineryFailure("C06: seeded runs whose terminal values differ from the configured one are missing")
+    forms = {(t["form"], t["v0"] == "none", t["v"] == "none") for t in nat_traces}
+    if not {("assign", False, True), ("assign", True, False)} <= forms or \
+            not {"replace", "copy", "deepcopy", "pickle", "file"} <= {f for f, _, _ in forms}:
+        raise core.MachineryFailure(f"C06: not every API form of configuring terminal_psi was exercised: {sorted(forms)}")
     if sum(1 for a in nat if a.get("need_retries")) < 3:
         raise core.MachineryFailure("C06: fewer than 3 adaptive runs with retries completed")
     # ---- 2. solver level: which pin mechanism does the code implement?  (TLC decides)
@@ -138,7 +167,8 @@ def solver_level(ctx):
              "identity row only (pinned code)": dict(oc.REPAIRED, MReimpose="never"),
              "nonzero configured value written only when the step was not retried": dict(oc.REPAIRED, MReimpose="nonzero",
                                                                                          MReimposeOnRetry=False),
-             "incoming terminal values written back (nonzero configured value)": dict(oc.REPAIRED, MReimpose="incoming_nonzero")}
+             "incoming terminal values written back (nonzero configured value)": dict(oc.REPAIRED, MReimpose="incoming_nonzero"),
+             "fix_psi flag frozen when the options object is constructed": dict(oc.REPAIRED, MFixFlag="at_construction")}
     full, res = oc.identify_among(ctx, nat_traces, cands, "C06 natural runs")
     if len(full) >= 2:
         raise core.MachineryFailure(f"C06: the natural runs do not discriminate the pin mechanisms {full}")
@@ -171,6 +201,11 @@ def solver_level(ctx):
                                     view="ViewStep"),
             name=f"OpsCache/SpecStep[{label}: must violate PinnedSitesStayPinned]",
             expect_violation="PinnedSitesStayPinned", count=False))
+    thunks.append(lambda: ctx.model_check(
+        "OpsCache", oc.cfg_text(dict(small, Scrs=[False], Seeds=["configured"]), dict(oc.REPAIRED, MFixFlag="at_construction"),
+                                ["UnsetMeansFree"], "SpecStep", view="ViewStep"),
+        name="OpsCache/SpecStep[fix_psi flag frozen at options construction: must violate UnsetMeansFree]",
+        expect_violation="UnsetMeansFree", count=False))
     out = {}
 
     def judge():       # every recorded run, every state (every step, every saved frame): the clauses themselves
@@ -188,8 +223,10 @@ def solver_level(ctx):
             pos, clause = bad[n][0]
             ctx.violation(f"C06:{clause}:natural:{a['label']}",
                           f"C06: real solver run '{a['label']}' ({info['sites']} sites, {info['terminal_sites']} terminal sites, "
-                          f"{info['steps']} steps{', seeded' if info['seeded'] else ''}): {clause} is false in {len(bad[n])} states, first at event {pos}; the order "
-                          f"parameter on the terminal sites leaves the configured value {a['terminal_psi']}: max deviation after an "
+                          f"{info['steps']} steps{', seeded' if info['seeded'] else ''}): {clause} is false in {len(bad[n])} states, first at event {pos}; "
+                          + ("the order parameter on the terminal sites leaves the configured value" if clause == "PinnedSitesStayPinned"
+                             else "the identity rows of the operators in use are not exactly the rows of the sites to be pinned; configured value")
+                          + f" {a['terminal_psi']} (options by {a.get('form', 'keyword')}): max deviation after an "
                           f"update {info['max_terminal_deviation_after_update']:.3g} (in the saved frames "
                           f"{info['max_terminal_deviation_in_frames']:.3g}; {info['retried_steps']} retried steps)",
                           {"input": a, "info": info, "false_clauses": bad[n][:20], "trace": tr, "mechanism": mech})
